@@ -16,7 +16,7 @@ CHECKS = {
  "C03": ("S", S_TECH, "merge/concat/zip/combine_latest/amb/take_until/skip_until/sample/sequence_equal/flat_map over 2-3 sources: all per-source scripts (<=2-3 items + complete/error/silent) x ALL sequential interleavings (hot, compared stepwise) + cold and mixed sources + one single-source operator below/above; oracle: reference interpreter.", "§5, §7 C03", S_NOTE),
  "C04": ("S", S_TECH, "Error injected at every position of every script through every operator (depth<=2) and every combining operator; retry(0..4)/retry_when/on_error_resume_next/materialize/dematerialize over sources whose k-th subscription behaves differently (5^4 attempt sequences); oracle: reference interpreter + the delivered error must be the very same payload object.", "§5, §7 C04", S_NOTE),
  "C05": ("S+T", S_TECH + "; cross-thread clause: " + T_TECH, "Every pipeline (depth<=2, combining operators) over hot sources with unsubscribe at every position of every history (also twice, also after the terminal); oracle: nothing delivered in or after the step in which unsubscribe returned, second unsubscribe is a no-op, is_subscribed truth table. Cross-thread clause (engine T): a producer thread (direct, through map, merge, flat_map, a Subject, observe_on, interval) against a main thread that unsubscribes, every schedule with <= 1-2 (thorough 2-4) preemptions; oracle: no callback whose causing library call started after unsubscribe() returned.", "§5, §7 C05", S_NOTE),
- "C06": ("S", S_TECH, "Every pipeline over probe sources (observer.is_subscribed() read after every step; polite/endless producers counted) for every terminating cause (unsubscribe at every position, terminal, take/first/element_at/take_while/contains/all/take_until/amb/retry/erroring sibling); oracle: a source the reference no longer needs reads is_subscribed()==false and makes no further emission.", "§5, §7 C06", S_NOTE),
+ "C06": ("S+T", S_TECH + "; cross-thread clause: " + T_TECH, "Every pipeline over probe sources (observer.is_subscribed() read after every step; polite/endless producers counted) for every terminating cause (unsubscribe at every position, terminal, take/first/element_at/take_while/contains/all/take_until/amb/retry/erroring sibling); oracle: a source the reference no longer needs reads is_subscribed()==false and makes no further emission.", "§5, §7 C06", S_NOTE),
  "C07": ("T+S", T_TECH + "; plus single-threaded re-execution under a lock monitor", "Engine T: ~50 concurrent scenarios, one or more per operator that owns shared state (4 subject types with producer||subscriber||unsubscriber, every combining and stateful operator fed by two producer threads with a third unsubscribing, publish/ref_count/replay connect races, observe_on/subscribe_on/interval/timeout/debounce against unsubscribe), every schedule with <= 1-2 (thorough 2-3) preemptions, writer-preferring RwLock model; oracle: the runtime's deadlock / self-deadlock / livelock-horizon / stuck-worker classification. Engine S: a re-entrancy catalogue (callbacks that unsubscribe themselves / call next / complete / subscribe on the subject they are called from, live and during the hand-over of the history, through 10 operators; synchronous sources below ref_count/replay with an early-ending downstream) and a slice of the C01/C05/C06 pipeline spaces, all under the facade's lock monitor.", "§4, §5, §7 C07", T_NOTE),
  "C08": ("T", T_TECH, "Every schedule with <= c preemptions (c=2..3 quick, 3..5 thorough) of 10-13 closed post/abort histories over 1..3 poster threads and the worker runs the real AsyncFunctionQueue/NewThreadScheduler to completion; oracle: tasks disjoint, at most once, FIFO w.r.t. real-time order of post calls, one worker thread, no lost wake-up, nothing dequeued after abort returned, worker exits after abort.", "§4, §7 C08", T_NOTE),
  "C09": ("T", T_TECH, "observe_on / subscribe_on (alone, below/above map, before take(1), stacked twice, combined) x source scripts (<=2 items + complete/error/none) emitted synchronously in subscribe or from a source thread x optional unsubscribe racing the worker; every schedule with <= 2 (thorough 3) preemptions; oracle: received = emitted (prefix if unsubscribed), terminal last, one worker thread != emitting thread, callback intervals disjoint, subscribe_on runs the source on the worker, nothing emitted after unsubscribe returned is delivered, worker exits.", "§4, §7 C09", T_NOTE),
